@@ -314,6 +314,7 @@ let check_waker_under_lock (evs : ev array) : string option =
 let base_locks (op : string) : int list option =
   match op with
   | "send" | "recv" | "trysend" | "tryrecv" | "drain" | "close" | "len" | "scount" | "rcount" | "isclosed"
+  | "isterm" | "isdisc" | "isempty" | "isfull"
   | "sendto" | "sendoptto" | "recvto" | "drops" | "dropr" -> Some [ 1 ]
   | "trysendrt" | "tryrecvrt" -> Some [ 0; 1 ]
   | "poll" -> Some [ 0; 1 ]
@@ -468,6 +469,10 @@ let check_outcome (cap : string) (progs : (int * (string list * string) list) li
                    | "scount" -> any_h (fun h -> run_labels [ LObs (n h, OSenderCount) ] s ~blk:None ~optv:false)
                    | "rcount" -> any_h (fun h -> run_labels [ LObs (n h, OReceiverCount) ] s ~blk:None ~optv:false)
                    | "isclosed" -> any_h (fun h -> run_labels [ LObs (n h, OIsClosed) ] s ~blk:None ~optv:false)
+                   | "isterm" -> with_r (fun h -> run_labels [ LObs (n h, OIsTerminated) ] s ~blk:None ~optv:false)
+                   | "isdisc" -> any_h (fun h -> run_labels [ LObs (n h, OIsDisconnected) ] s ~blk:None ~optv:false)
+                   | "isempty" -> any_h (fun h -> run_labels [ LObs (n h, OIsEmpty) ] s ~blk:None ~optv:false)
+                   | "isfull" -> any_h (fun h -> run_labels [ LObs (n h, OIsFull) ] s ~blk:None ~optv:false)
                    | "mksend" -> with_s (fun h -> let f = new_id () in
                                           run_labels [ LMkSend (n f, n h, n (i (arg 2))) ] { s with futs = (i (arg 1), f) :: s.futs } ~blk:None ~optv:false)
                    | "mkrecv" -> with_r (fun h -> let f = new_id () in
